@@ -231,21 +231,25 @@ def rule_state_mode(repo, rule):
     import ast as _ast
     from sa.patheval import Interp, FuncRef, ClassRef
 
+    from sa.rules.common import callee_qual
+
     class TD(Interp):
+        # calls are recognised by what they resolve to, not by the names of the variables they go through
         def on_call(self, text, callee, args, kwargs, node, frame):
-            if text == 'CoderState':
-                self.event('state', list(args))
+            q = callee_qual(callee) or text
+            if q in ('class:CoderState', 'CoderState'):
+                self.event('state', list(args) + [kwargs[k] for k in ('is_compressed', 'n_subsets') if k in kwargs][len(args):])
                 return Obj('CoderState', {'decoded_descriptors_all_subsets': Sym('DD'), 'decoded_values_all_subsets': Sym('DV'), 'bitmap_links_all_subsets': Sym('BL'),
                                           'idx_value': 0})
-            if text == 'bufr_message.build_template':
+            if q == 'BufrMessage.build_template':
                 return (Sym('TEMPLATE'), Sym('TG'))
-            if text in ('template_processing_func', 'self.process_template', 'process_compiled_template'):
+            if q.split('.')[-1] in ('process_template', 'process_compiled_template') or text == 'template_processing_func':
                 self.event('process', len([e for e in self.path.events if e[0] == 'switch']))
                 return None
-            if text == 'state.switch_subset_context':
-                self.event('switch', args[0] if args else None)
+            if q == 'CoderState.switch_subset_context':
+                self.event('switch', args[1] if len(args) > 1 else (args[0] if args else kwargs.get('idx_subset')))
                 return None
-            if text == 'TemplateData':
+            if q in ('class:TemplateData', 'TemplateData'):
                 self.event('template_data', list(args))
                 return Obj('TemplateData', {})
             if text == 'range':
